@@ -12,6 +12,9 @@ pub struct G {
     pub positive: bool,
     /// probability (percent) of deliberately producing constructs that trigger a known finding
     pub kf_pct: usize,
+    /// documents that belong to the source just generated (shapes whose documents are not
+    /// derived from the rule by `doc_for`)
+    pub own_docs: Option<Vec<J>>,
 }
 
 const FIELDS: &[&str] = &["f", "g", "h", "n", "m", "s.t", "s.u", "arr", "o", "arr[1]", "lst[0]"];
@@ -36,7 +39,7 @@ pub fn obj(kv: Vec<(String, J)>) -> J {
 
 impl G {
     pub fn new(seed: u64) -> G {
-        G { r: Rng::new(seed), kf_pct: 3, positive: false }
+        G { r: Rng::new(seed), kf_pct: 3, positive: false, own_docs: None }
     }
 
     pub fn word(&mut self, max: usize, small: bool) -> String {
@@ -116,6 +119,8 @@ impl G {
                             let cs: Vec<u32> = (0..k).map(|_| *self.r.pick(ALPHA_SMALL) as u32).collect();
                             json!({"t":"set","cs":cs,"neg":self.r.chance(1, 3)})
                         }
+                        // letters with a non-ASCII case variant (s ~ LONG S, k ~ KELVIN SIGN, e-acute)
+                        6 => json!({"t":"c","c": *self.r.pick(&['s', 'k', 'é', 'S', 'K']) as u32}),
                         _ => json!({"t":"c","c": *self.r.pick(ALPHA_SMALL) as u32}),
                     };
                     // repetition on a one-character atom (`.*` is the star atom)
@@ -172,7 +177,12 @@ impl G {
                     let times = match a["rep"].as_str() { Some("+") => 1 + self.r.below(2), Some("?") => self.r.below(2), Some("*") => self.r.below(3), _ => 1 };
                     for _ in 0..times {
                         match a["t"].as_str().unwrap_or("") {
-                            "c" => s.push(char::from_u32(a["c"].as_u64().unwrap_or(97) as u32).unwrap_or('a')),
+                            "c" => {
+                                let c = char::from_u32(a["c"].as_u64().unwrap_or(97) as u32).unwrap_or('a');
+                                // sometimes the non-ASCII case variant of the letter
+                                let v = match c { 's' | 'S' => 'ſ', 'k' | 'K' => '\u{212a}', 'é' => 'É', x => x };
+                                s.push(if v != c && self.r.chance(1, 2) { v } else { c });
+                            }
                             "dot" => s.push(*self.r.pick(ALPHA_SMALL)),
                             "cls" => s.push(*self.r.pick(&['1', ' ', 'a', '-', 'é', '_', '\n', 'B'])),
                             "set" => {
@@ -528,6 +538,143 @@ impl G {
             cond = json!({"t":"not","e":{"t":"par","e":cond}});
         }
         json!({"cond":cond,"ids":ids})
+    }
+
+    /// Shapes in which the optimiser regroups predicates on ONE field that differ in a flag:
+    ///  0  `str(code): pat` next to `code: pat` (the cast flag) - a sequence of mappings or or-ed
+    ///     identifiers; the field holds numbers, booleans and texts
+    ///  1  a list of patterns and its case-insensitive TWIN under two identifiers, `A or B` /
+    ///     `A and B` in both orders (the case flag)
+    ///  2  a sequence of multi-key mappings whose shared key is written with int() / flt()
+    ///     (matrix cells keep their cast); the field holds numeric texts, booleans, fractions
+    pub fn flag_mix_source(&mut self) -> J {
+        let ent = |m: &str, f: &str, v: J| json!({"m":m,"c":0,"f":cps(f),"v":v});
+        let pat = |k: &str, ic: bool, a: &str| json!({"t":"pat","k":k,"ic":ic,"a":cps(a)});
+        match self.r.below(5) {
+            // 4  a LIST of regexes (one RegexSet) in which a member is no longer a regex once its
+            //    leading / trailing `.*` is cut (`.*?x` -> `?x`, `x\.*` -> `x\`): rewrite must keep it
+            4 => {
+                let ic = self.r.chance(1, 2);
+                let c = |ch: char| json!({"t":"c","c":ch as u32});
+                let pool: Vec<Vec<J>> = vec![
+                    vec![json!({"t":"lazy"}), c('a')],
+                    vec![c('b'), json!({"t":"c","c":46,"rep":"*"})],
+                    vec![json!({"t":"star"}), c('a'), c('b')],
+                    vec![c('A'), json!({"t":"star"})],
+                    vec![json!({"t":"bol"}), c('b')],
+                ];
+                let n = 2 + self.r.below(2);
+                let mut vs = vec![];
+                for _ in 0..n {
+                    vs.push(json!({"t":"pat","k":"regex","ic":ic,"a":self.r.pick(&pool).clone()}));
+                }
+                let hay = ["a", "xa", "b..", "b", "xab", "Ay", "q", "ba"];
+                self.own_docs = Some((0..5).map(|_| obj(vec![("f".into(), s_node(*self.r.pick(&hay)))])).collect());
+                if self.r.chance(1, 2) {
+                    json!({"cond":{"t":"id","n":cps("A")},"ids":[[cps("A"),{"t":"map","es":[ent("none", "f", json!({"t":"list","vs":vs}))]}]]})
+                } else {
+                    // the same regexes as lone predicates under or-ed identifiers (shake merges them)
+                    let ids: Vec<J> = vs.iter().enumerate().map(|(i, p)| json!([cps(IDENTS[i]), {"t":"map","es":[ent("none", "f", p.clone())]}])).collect();
+                    let cond = (0..n).map(|i| json!({"t":"id","n":cps(IDENTS[i])})).reduce(|l, r| json!({"t":"or","l":l,"r":r})).unwrap();
+                    json!({"cond":cond,"ids":ids})
+                }
+            }
+            // 3  a case-insensitive regex that is pure literal text (with `.*` around it or not) over
+            //    letters that have a non-ASCII case variant; the field holds those variants
+            3 => {
+                let word = *self.r.pick(&["task", "kes", "sé", "ks"]);
+                let mut atoms: Vec<J> = word.chars().map(|c| json!({"t":"c","c":c as u32})).collect();
+                if self.r.chance(1, 2) { atoms.insert(0, json!({"t":"star"})); }
+                if self.r.chance(1, 2) { atoms.push(json!({"t":"star"})); }
+                let ic = self.r.chance(3, 4);
+                let p = json!({"t":"pat","k":"regex","ic":ic,"a":atoms});
+                let v = if self.r.chance(1, 2) { p } else { json!({"t":"list","vs":[p, pat("exact", false, "zz")]}) };
+                let variants = |w: &str| -> Vec<String> {
+                    vec![w.to_string(), w.to_uppercase(), w.replace('s', "ſ"), w.replace('k', "\u{212a}"), w.replace('é', "É"),
+                         format!("x{}y", w.replace('s', "ſ").replace('k', "\u{212a}")), "q".to_string()]
+                };
+                let vs = variants(word);
+                self.own_docs = Some((0..6).map(|_| obj(vec![("f".into(), s_node(&self.r.pick(&vs[..]).clone()))])).collect());
+                json!({"cond":{"t":"id","n":cps("A")},"ids":[[cps("A"),{"t":"map","es":[ent("none", "f", v)]}]]})
+            }
+            0 => {
+                let n = 2 + self.r.below(2);
+                let mut preds = vec![];
+                for i in 0..n {
+                    let digit = ["4", "5", "t", "1"][i % 4];
+                    let k = *self.r.pick(&["prefix", "contains", "exact", "suffix"]);
+                    let m = if i == 0 || self.r.chance(1, 3) { "str" } else { "none" };
+                    preds.push(json!({"t":"map","es":[ent(m, "code", pat(k, false, digit))]}));
+                }
+                if self.r.chance(1, 2) { preds.swap(0, n - 1); }
+                let vals = [i_node("400"), i_node("500"), i_node("4"), i_node("5"), s_node("4x"), s_node("5"), s_node("x5"),
+                            json!({"t":"B","b":true}), f_node("45.5"), i_node("14"), s_node("q")];
+                self.own_docs = Some((0..6).map(|_| obj(vec![("code".into(), self.r.pick(&vals).clone())])).collect());
+                if self.r.chance(1, 2) {
+                    json!({"cond":{"t":"id","n":cps("A")},"ids":[[cps("A"),{"t":"seq","ms":preds}]]})
+                } else {
+                    let ids: Vec<J> = preds.iter().enumerate().map(|(i, p)| json!([cps(IDENTS[i]), p])).collect();
+                    let cond = (0..n).map(|i| json!({"t":"id","n":cps(IDENTS[i])})).reduce(|l, r| json!({"t":"or","l":l,"r":r})).unwrap();
+                    json!({"cond":cond,"ids":ids})
+                }
+            }
+            1 => {
+                let words = ["ab", "cd", "ba"];
+                let n = 2 + self.r.below(2);
+                let kinds: Vec<&str> = (0..n).map(|_| *self.r.pick(&["prefix", "suffix", "contains", "exact"])).collect();
+                let list = |ic: bool| json!({"t":"list","vs":(0..n).map(|i| pat(kinds[i], ic, words[i % 3])).collect::<Vec<_>>()});
+                let ids = json!([[cps("A"), {"t":"map","es":[ent("none", "f", list(false))]}],
+                                 [cps("B"), {"t":"map","es":[ent("none", "f", list(true))]}]]);
+                let (l, r) = if self.r.chance(1, 2) { ("A", "B") } else { ("B", "A") };
+                let op = if self.r.chance(1, 2) { "or" } else { "and" };
+                let vals = ["abx", "ABx", "xcd", "xCD", "q", "ab", "AB", "Ba", "xbaX", "cd"];
+                self.own_docs = Some((0..6).map(|_| obj(vec![("f".into(), s_node(*self.r.pick(&vals)))])).collect());
+                json!({"cond":{"t":op,"l":{"t":"id","n":cps(l)},"r":{"t":"id","n":cps(r)}},"ids":ids})
+            }
+            _ => {
+                let cast = if self.r.chance(2, 3) { "int" } else { "flt" };
+                let c1 = if cast == "int" { json!({"t":"num","n":int_node("5")}) } else { json!({"t":"num","n":flt_node("5.5")}) };
+                let c2 = if cast == "int" { json!({"t":"cmp","op":"gt","n":int_node("7")}) } else { json!({"t":"cmp","op":"gt","n":flt_node("7.5")}) };
+                let rows = vec![json!({"t":"map","es":[ent(cast, "n", c1), ent("none", "g", pat("exact", false, "x"))]}),
+                                json!({"t":"map","es":[ent(cast, "n", c2), ent("none", "g", pat("exact", false, "y"))]}),
+                                json!({"t":"map","es":[ent("none", "g", pat("exact", false, "z")), ent("none", "h", pat("any", false, ""))]})];
+                let nvals = [s_node("5"), s_node("8"), json!({"t":"B","b":true}), f_node("5.2"), f_node("5.5"), i_node("5"), i_node("8"), s_node("5.5"), s_node("q"), f_node("8.5")];
+                let gvals = ["x", "y", "z"];
+                self.own_docs = Some((0..6).map(|_| {
+                    let mut kv = vec![("n".to_string(), self.r.pick(&nvals).clone()), ("g".to_string(), s_node(*self.r.pick(&gvals)))];
+                    if self.r.chance(1, 3) { kv.push(("h".into(), s_node("w"))); }
+                    obj(kv)
+                }).collect());
+                if self.r.chance(1, 2) {
+                    json!({"cond":{"t":"id","n":cps("A")},"ids":[[cps("A"),{"t":"seq","ms":rows}]]})
+                } else {
+                    let ids: Vec<J> = rows.iter().enumerate().map(|(i, p)| json!([cps(IDENTS[i]), p])).collect();
+                    json!({"cond":{"t":"or","l":{"t":"or","l":{"t":"id","n":cps("A")},"r":{"t":"id","n":cps("B")}},"r":{"t":"id","n":cps("C")}},"ids":ids})
+                }
+            }
+        }
+    }
+
+    /// a list that holds the wildcard `*` among members of other kinds (numbers, booleans, a nested
+    /// mapping, further patterns), plain or under all(): `*` matches texts only, so the members
+    /// written after it still count
+    pub fn wild_list_source(&mut self) -> J {
+        let mut vs = vec![json!({"t":"pat","k":"any","ic":false,"a":[]})];
+        let extra = [json!({"t":"num","n":int_node("5")}), json!({"t":"bool","b":true}), json!({"t":"pat","k":"prefix","ic":false,"a":cps("a")}),
+                     json!({"t":"map","es":[{"m":"none","c":0,"f":cps("x"),"v":{"t":"num","n":int_node("1")}}]}), json!({"t":"null"})];
+        let n = 1 + self.r.below(3);
+        for _ in 0..n {
+            let e = self.r.pick(&extra).clone();
+            if !vs.contains(&e) { vs.push(e); }
+        }
+        let pos = self.r.below(vs.len());
+        vs.swap(0, pos);
+        let same_kind = vs.iter().all(|v| v["t"] == "pat");
+        let m = if same_kind && self.r.chance(1, 2) { "all" } else { "none" };
+        let vals = [i_node("5"), json!({"t":"B","b":true}), s_node("abx"), s_node("b"), i_node("7"), json!({"t":"N"}),
+                    obj(vec![("x".into(), i_node("1"))]), json!({"t":"B","b":false})];
+        self.own_docs = Some((0..6).map(|_| obj(vec![("k".into(), self.r.pick(&vals).clone())])).collect());
+        json!({"cond":{"t":"id","n":cps("A")},"ids":[[cps("A"),{"t":"map","es":[{"m":m,"c":0,"f":cps("k"),"v":{"t":"list","vs":vs}}]}]]})
     }
 
     /// three to five identifiers or-ed together, each one string predicate on the SAME field, drawn
@@ -1119,7 +1266,9 @@ const COND_PIECES: &[&str] = &[
     "_", "all", "of", "int", "all(A)", "of(B, 1)", "of(B,0)", "Z", "all(Z)", "of(Z, 1)", "not(Z)", "int(Z)", "int(f)", "flt(g)", "str(f)", "int(f) == 1", "flt(g) < 1.5",
     "str(f) == str(g)", "int(f) >= int(g)",
 ];
-const COND_ODD: &[&str] = &["é", "É1", "😀", "&", "|", "\t", "\u{b}", "\u{a0}", "²", "٣", "Ａ", "ß", "!", "\"", "'", "%", "{", "}", "~", "\n"];
+const COND_ODD: &[&str] = &["é", "É1", "😀", "&", "|", "\t", "\u{b}", "\u{a0}", "²", "٣", "Ａ", "ß", "!", "\"", "'", "%", "{", "}", "~", "\n",
+                            // characters that are numeric but not ASCII digits, directly after an ASCII digit
+                            "1²", "2٣", "1½", "4２", "7Ⅶ", "of(A, 1²)", "1.٣", "0²"];
 
 /// identifier names of the condition generators: words that begin with keyword letters, and
 /// names in which the keyword letters are followed by the OTHER identifier characters (_ . # [ ])
@@ -1805,15 +1954,22 @@ pub fn gen_cases(topic: &str, seed: u64, n: usize, path: &str) -> Result<(), Str
         g.positive = matches!(topic, "opt" | "perm") && mode < 4;
         let shape = if topic == "nm" { 2 } else if matches!(topic, "opt" | "adv" | "pure" | "find" | "lang" | "perm") { g.r.below(8) } else { 9 };
         let topic = if topic == "nm" { "opt" } else { topic };
+        g.own_docs = None;
         let src = match shape { 0 | 1 => g.matrix_source(), 2 => g.nested_merge_source(),
+                                5 if matches!(topic, "opt" | "lang" | "adv") => g.flag_mix_source(),
+                                6 | 7 if topic == "adv" => g.flag_mix_source(),
                                 3 if matches!(topic, "pure" | "opt" | "find") => g.deep_nested_source(),
                                 4 if matches!(topic, "find" | "opt" | "lang") => g.nested_multi_source(),
-                                4 | 5 if matches!(topic, "pure" | "perm") => g.repeat_needle_source(), _ => g.source(3) };
+                                4 | 5 if matches!(topic, "pure" | "perm") => g.repeat_needle_source(),
+                                6 if matches!(topic, "perm" | "lang" | "opt") => g.wild_list_source(), _ => g.source(3) };
         let nd = 3 + g.r.below(4);
         let complete = matches!(topic, "opt" | "perm") && mode >= 4 && mode < 9;
-        let docs: Vec<J> = (0..nd)
-            .map(|i| if shape == 2 { g.nested_merge_doc() } else if complete && i > 0 { g.doc_complete(&src) } else { g.doc_for(&src) })
-            .collect();
+        let docs: Vec<J> = match g.own_docs.take() {
+            Some(d) => d,
+            None => (0..nd)
+                .map(|i| if shape == 2 { g.nested_merge_doc() } else if complete && i > 0 { g.doc_complete(&src) } else { g.doc_for(&src) })
+                .collect(),
+        };
         let all17 = J::Array(crate::run::all_sws());
         let some_sws = {
             let all = crate::run::all_sws();
@@ -1977,7 +2133,15 @@ pub fn gen_cases(topic: &str, seed: u64, n: usize, path: &str) -> Result<(), Str
                         if g.r.chance(1, 8) && !(mode == "of" && n == 0 && form >= 3) {
                             continue;
                         }
-                        let v = if class == "str" && form < 3 && g.r.chance(1, 2) {
+                        let v = if class == "str" && form < 3 && g.r.chance(1, 5) {
+                            // an ARRAY of texts, the same member's match in more than one element: a
+                            // member counts once however many elements it is found in
+                            let h = g.r.pick(&hints).clone();
+                            let a = g.near(&h);
+                            let mut els = vec![s_node(&a), s_node(&a)];
+                            if g.r.chance(1, 2) { let h2 = g.r.pick(&hints).clone(); els.push(s_node(&g.near(&h2))); }
+                            json!({"t":"A","vs":els})
+                        } else if class == "str" && form < 3 && g.r.chance(1, 2) {
                             // a string containing several members' needles
                             let mut t = String::new();
                             for h in &hints {
@@ -2053,7 +2217,7 @@ pub fn gen_cases(topic: &str, seed: u64, n: usize, path: &str) -> Result<(), Str
                     obj(kv)
                 }).collect();
                 json!({"topic":"path","oracle":true,"wt":true,"src":src,"docs":docs,
-                       "plan":{"tri":true,"sws":[[], [true,true,true,true]],"reprs":["json","hm","own","doc"]}})
+                       "plan":{"tri":true,"sws":[[], [true,true,true,true]],"reprs":["json","hm","own","doc","ownfind"]}})
             }
             // C09: random and near-boundary 64-bit values against random constants
             // a bare YAML number above i64::MAX as the constant (serde_yaml carries it as u64; the
@@ -2076,6 +2240,41 @@ pub fn gen_cases(topic: &str, seed: u64, n: usize, path: &str) -> Result<(), Str
                     vals.push(f_node(&format!("{}.0", ctext)));
                     vals.push(f_node("1.5"));
                 }
+                let docs: Vec<J> = vals.into_iter().map(|v| obj(vec![("f".into(), v)])).collect();
+                json!({"topic":"num","oracle":true,"wt":true,"src":src,"docs":docs,
+                       "plan":{"tri":true,"sws":[[], [true,true,true,true]]}})
+            }
+            // neighbouring doubles: a float constant against the doubles just below and above it (their
+            // shortest decimal spellings): exactly one of < = > holds, `=` only for the same double
+            "num" if mode == 3 => {
+                let (c, lo, hi) = *g.r.pick(&[("0.3", "0.29999999999999993", "0.30000000000000004"), ("0.1", "0.09999999999999999", "0.10000000000000002"),
+                                              ("1.0", "0.9999999999999999", "1.0000000000000002"), ("2.5", "2.4999999999999996", "2.5000000000000004")]);
+                let op = *g.r.pick(&["eq", "eq", "gt", "ge", "lt", "le"]);
+                let e = match g.r.below(3) {
+                    0 => json!({"m":"none","c":0,"f":cps("f"),"v":{"t":"cmp","op":op,"n":flt_node(c)}}),
+                    1 => json!({"m":"flt","c":0,"f":cps("f"),"v":{"t":"cmp","op":op,"n":flt_node(c)}}),
+                    _ => json!({"m":"none","c":0,"f":cps("f"),"v":{"t":"num","n":flt_node(c)}}),
+                };
+                let cond = if g.r.chance(1, 4) { json!({"t":"not","e":{"t":"id","n":cps("A")}}) } else { json!({"t":"id","n":cps("A")}) };
+                let src = json!({"cond":cond,"ids":[[cps("A"),{"t":"map","es":[e]}]]});
+                let vals = vec![f_node(c), f_node(lo), f_node(hi), f_node("0.0"), f_node("3.5"),
+                                json!({"t":"F","neg":false,"d":[],"fr":[],"sp":"inf"}), json!({"t":"F","neg":true,"d":[],"fr":[],"sp":"inf"})];
+                let docs: Vec<J> = vals.into_iter().map(|v| obj(vec![("f".into(), v)])).collect();
+                json!({"topic":"num","oracle":true,"wt":true,"src":src,"docs":docs,
+                       "plan":{"tri":true,"sws":[[], [true,true,true,true]]}})
+            }
+            // a bare number under a str(k) key, alone and as a list member: the canonical decimal text
+            // of the constant (a whole float has no ".0") against numbers and texts
+            "num" if mode == 2 => {
+                let c = *g.r.pick(&["2.0", "2", "2.5", "-4.0", "0.0", "1024.0", "10"]);
+                let cn = if c.contains('.') { flt_node(c) } else { int_node(c) };
+                let v = if g.r.chance(1, 2) { json!({"t":"num","n":cn}) } else { json!({"t":"list","vs":[{"t":"num","n":cn}, {"t":"pat","k":"exact","ic":false,"a":cps("zz")}]}) };
+                let cond = if g.r.chance(1, 4) { json!({"t":"not","e":{"t":"id","n":cps("A")}}) } else { json!({"t":"id","n":cps("A")}) };
+                let src = json!({"cond":cond,"ids":[[cps("A"),{"t":"map","es":[{"m":"str","c":0,"f":cps("f"),"v":v}]}]]});
+                let whole = c.trim_end_matches(".0");
+                let as_float = if whole.contains('.') { whole.to_string() } else { format!("{}.0", whole) };
+                let vals = vec![f_node(&as_float), i_node(if whole.contains('.') { "2" } else { whole }), s_node(whole), s_node(&as_float),
+                                s_node(c), f_node("2.5"), s_node("2.5"), i_node("2"), s_node("zz"), json!({"t":"B","b":true})];
                 let docs: Vec<J> = vals.into_iter().map(|v| obj(vec![("f".into(), v)])).collect();
                 json!({"topic":"num","oracle":true,"wt":true,"src":src,"docs":docs,
                        "plan":{"tri":true,"sws":[[], [true,true,true,true]]}})
@@ -2149,6 +2348,20 @@ pub fn gen_cases(topic: &str, seed: u64, n: usize, path: &str) -> Result<(), Str
                        "plan":{"tri":true,"sws":[[], [true,true,true,true]]}})
             }
             // C07: one field, long strings, multi-byte characters, lists of 1-5 patterns
+            // str(f) == str(g) in the condition compares the two texts EXACTLY (it is not a pattern:
+            // neither the i prefix nor the ignore_case build applies to it)
+            "str" if mode == 0 && g.r.chance(1, 3) => {
+                let src = json!({"cond":{"t":"cmp","op":"eq","l":{"t":"cast","k":"str","f":cps("f")},"r":{"t":"cast","k":"str","f":cps("g")}},
+                                 "ids":[[cps("A"),{"t":"map","es":[{"m":"none","c":0,"f":cps("h"),"v":{"t":"pat","k":"any","ic":false,"a":[]}}]}]]});
+                let pool = ["Ab", "ab", "AB", "aB", "x", "", "é", "É"];
+                let docs: Vec<J> = (0..8).map(|_| {
+                    let a = *g.r.pick(&pool);
+                    let b = if g.r.chance(1, 3) { a } else { *g.r.pick(&pool) };
+                    obj(vec![("f".into(), s_node(a)), ("g".into(), s_node(b))])
+                }).collect();
+                json!({"topic":"str","oracle":true,"wt":true,"src":src,"docs":docs,
+                       "plan":{"tri":false,"sws":[[], [true,true,true,true]]}})
+            }
             "str" => {
                 let n = 1 + g.r.below(5);
                 // members of one list usually share a batch class (kind family and case flag), so
@@ -2311,11 +2524,11 @@ pub fn gen_cases(topic: &str, seed: u64, n: usize, path: &str) -> Result<(), Str
                 } else { (src, docs) };
                 json!({"topic":"repr","oracle":true,"wt":true,"src":src,"docs":docs,
                        "plan":{"tri":false,"scope":"sw","sws":[[], [true,true,true,true]],
-                               "reprs":["json","jsontext","yamltext","hm","own","ownsigned","doc"]}})
+                               "reprs":["json","jsontext","yamltext","hm","own","ownsigned","doc","ownfind"]}})
             }
             "repr" => json!({"topic":"repr","oracle":true,"wt":true,"src":src,"docs":docs,
                              "plan":{"tri":false,"scope":"sw","sws":[[], [true,true,true,true]],
-                                     "reprs":["json","jsontext","yamltext","hm","own","ownsigned","doc"]}}),
+                                     "reprs":["json","jsontext","yamltext","hm","own","ownsigned","doc","ownfind"]}}),
             _ => return Err(format!("unknown topic {}", topic)),
         };
         let mut c = c;
